@@ -44,8 +44,8 @@ def norm(node):
     """Real AST node -> the spec's Flag() shape, by attribute reflection."""
     cls = type(node).__name__
     p = bool(getattr(node, 'parentheses', False))
-    if cls == 'Identifier':
-        return ['leaf', p]
+    if cls in ('Identifier', 'Constant'):
+        return ['leaf', p]          # a literal operand groups like a column operand
     if cls == 'UnaryOperation':
         op = str(node.op).upper()
         return ['un', '-' if op == '-' else op, p, norm(node.args[0])]
@@ -194,10 +194,12 @@ def run(ctx):
                 unsupported[d] |= ops_in(c[2], set())
     ctx.cov['operators_rejected_outright'] = {d: sorted(v) for d, v in unsupported.items()}
     # expression contexts a dialect does not have at all (e.g. no CASE in the sqlite dialect)
-    nocontext = {d: set() for d in DIALECTS}
-    for d, c, st, got, names in _parse_case(('c1 = c2', ['leaf', False], list(CONTEXTS))):
-        if st != 'ok':
-            nocontext[d].add(c)
+    # (a context counts as missing only if the dialect rejects EVERY probe expression in it)
+    nocontext = {d: set(CONTEXTS) for d in DIALECTS}
+    for probe in ('c1 = c2', 'c1 + c2 > 1', '(c1)', 'c1 is null', 'not c1'):
+        for d, c, st, got, names in _parse_case((probe, ['leaf', False], list(CONTEXTS))):
+            if st == 'ok':
+                nocontext[d].discard(c)
     ctx.cov['contexts_rejected_outright'] = {d: sorted(v) for d, v in nocontext.items()}
 
     # ---- replay into the three parsers
@@ -223,6 +225,25 @@ def run(ctx):
                     continue
                 cases.append((tag + '~layout', toks, flag, ev))
                 work.append((text.replace(' ', gap), flag, ['select']))
+    # literal operands: the same trees with numbers in place of (some) columns.  Trees with a unary minus are left out: the
+    # grammars fold `- <number>` into a negative constant, which is C04's subject.
+    def has_uminus(f):
+        return isinstance(f, list) and ((f[0] == 'un' and f[1] == '-') or any(has_uminus(x) for x in f[3:] if isinstance(x, list)))
+    for i in range(base_n):
+        tag, toks, flag, ev = cases[i]
+        if has_uminus(flag) or (not thorough and i % 2):
+            continue
+        nl = sum(1 for t in toks if t == 'L')
+        for mode in ('first', 'all'):
+            out, k = [], 0
+            for t in toks:
+                if t == 'L':
+                    k += 1
+                    out.append(str((k - 1) % 3) if (mode == 'all' or k == 1) else 'c%d' % (((k - 1) % 3) + 1))
+                else:
+                    out.append(t)
+            cases.append((tag + '~literal', toks, flag, ev))
+            work.append((' '.join(out), flag, ['select', 'where']))
     results = pmap(_parse_case, work, chunksize=32)
     n_eval = n_skip = 0
     for (tag, toks, flag, ev), (text, _, cx), rs in zip(cases, work, results):
@@ -234,7 +255,7 @@ def run(ctx):
                 n_skip += 1
                 continue
             n_eval += 1
-            if st != 'ok' and tag.endswith('~layout'):
+            if st != 'ok' and tag.endswith(('~layout', '~literal')):
                 n_skip += 1
                 continue
             if st != 'ok':
@@ -247,7 +268,7 @@ def run(ctx):
                               'the parser groups the expression differently from SQL precedence/associativity '
                               '(or loses/invents parentheses)',
                               {'expr': text, 'dialect': d, 'context': c, 'expected': flag, 'got': got})
-            elif names != expnames:
+            elif names != expnames and not tag.endswith('~literal'):
                 ctx.violation('operand-order:%s' % d, 'operands are not in textual order',
                               {'expr': text, 'dialect': d, 'context': c, 'expected': expnames, 'got': names})
     ctx.cov['evaluations'] = n_eval
